@@ -216,4 +216,7 @@ class LessThan(Interval):
         return tensor
 
     def __repr__(self) -> str:
-        return self._get_name() + f"({self.upper_bound:.3E})"
+        if self.upper_bound.numel() == 1:
+            return self._get_name() + f"({self.upper_bound:.3E})"
+        else:
+            return super().__repr__()
